@@ -465,47 +465,74 @@ Proof.
   destruct td; cbn; discriminate.
 Qed.
 
-Definition basic_bad (x : sc) : bool := is_nan x || le_sc x (zc 0) || is_inf x.
+Definition basic_bad (az : bool) (x : sc) : bool := zero_test az x || (is_nan x || is_inf x).
 
-Lemma bad_not_basic (s : sc) : bad_sc DHw s = true -> basic_bad s = false ->
+Lemma bad_not_basic (az : bool) (s : sc) : bad_sc (DHw az) s = true -> basic_bad az s = false ->
   exists q, s = Frac q /\ negb (eq_sc (Int (trunc q)) (Frac q)) = true.
 Proof.
   unfold basic_bad. destruct s as [z|q| | | |b]; cbn [bad_sc is_nan is_inf noninteger orb]; intros B N;
-    try discriminate; rewrite ?orb_false_r in *; try congruence.
+    rewrite ?orb_true_r, ?orb_false_r in *; try discriminate; try congruence.
   exists q. split; [reflexivity|]. rewrite N in B. exact B.
 Qed.
 
-Lemma basic_rejected (td : bool) (v : value) (c : cs) :
-  regular v = true -> csv_core false td DtInt v = Ok c -> mr basic_bad td v = false.
+Lemma mr_or (f g : sc -> bool) (td : bool) (v : value) :
+  mr (fun x => f x || g x) td v = mr f td v || mr g td v.
 Proof.
-  intros R E. destruct (mr basic_bad td v) eqn:B; [|reflexivity]. exfalso.
-  assert (H : of_res (csv_core false td DtInt v) <> None).
-  { apply (csv_lift false td DtInt basic_bad v R); [|exact B]. intros x Rx Bx. unfold basic_bad in Bx.
-    destruct (is_nan x) eqn:N; [now rewrite (cast_int_nan x N)|].
-    destruct (is_inf x) eqn:F; [now rewrite (cast_int_inf x F)|].
-    cbn [orb] in Bx. rewrite orb_false_r in Bx.
-    destruct (cast_int_ok x Rx N F) as [z [Hc [Hle _]]]. rewrite Hc. apply rej_le0. now apply Hle. }
-  rewrite E in H. now apply H.
+  destruct v as [s|[|a [|b [|c t]]]|[|a [|b [|c t]]]| |]; cbn [mr]; try reflexivity; destruct td; try reflexivity;
+    destruct (f a), (g a), (f b), (g b); reflexivity.
+Qed.
+
+Lemma wrap_ok2 az td v c : check_scalar_variable az td DtInt v = Ok c ->
+  csv_pre az td v = None /\ csv_core az td DtInt v = Ok c.
+Proof.
+  unfold check_scalar_variable. cbn [is_int_dt]. destruct (csv_pre az td v); [discriminate|]. now split.
+Qed.
+
+Lemma cast_float_zero_test (az : bool) (s s' : sc) : cast DtFloat s = Ok s' -> zero_test az s' = zero_test az s.
+Proof.
+  intros H. unfold zero_test. destruct az; [apply (cast_float_lt s s' _ H)|apply (cast_float_le s s' _ H)].
+Qed.
+
+Lemma basic_rejected (az td : bool) (v : value) (c : cs) :
+  regular v = true -> check_scalar_variable az td DtInt v = Ok c -> mr (basic_bad az) td v = false.
+Proof.
+  intros R E. apply wrap_ok2 in E as [P E].
+  destruct (mr (basic_bad az) td v) eqn:B; [|reflexivity]. exfalso.
+  unfold basic_bad in B. rewrite mr_or in B. apply orb_prop in B as [B|B].
+  - (* a value failing the sign test is stopped by the float pre-check *)
+    assert (H : csv_pre az td v <> None).
+    { apply pre_of_core. apply (csv_lift az td DtFloat (zero_test az) v R); [|exact B].
+      intros x Rx Bx. destruct (cast DtFloat x) as [x'|] eqn:F; [|exact I].
+      now rewrite (cast_float_zero_test az x x' F). }
+    now apply H.
+  - (* nan / infinity do not survive the integer cast *)
+    assert (H : of_res (csv_core az td DtInt v) <> None).
+    { apply (csv_lift az td DtInt (fun x => is_nan x || is_inf x) v R); [|exact B]. intros x Rx Bx.
+      destruct (is_nan x) eqn:N; [now rewrite (cast_int_nan x N)|].
+      cbn [orb] in Bx. now rewrite (cast_int_inf x Bx). }
+    rewrite E in H. now apply H.
 Qed.
 
 Lemma cast_frac_regular (q : Q) : regular_sc (Frac q) = true -> cast DtInt (Frac q) = Ok (Int (trunc q)).
 Proof. cbn. intros R. now rewrite R. Qed.
 
-Lemma cov_hw (td : bool) (v : value) :
-  regular v = true -> must_reject DHw td v = true -> run_guard (GHalfWindow false td) v <> None.
+(* _check_half_window with flags (allow_zero, two_d) rejects everything outside the matching domain *)
+Lemma cov_hw (az td : bool) (v : value) :
+  regular v = true -> must_reject (DHw az) td v = true -> run_guard (GHalfWindow az td) v <> None.
 Proof.
   intros R M. rewrite must_reject_mr in M by reflexivity. cbn [run_guard]. unfold check_half_window.
-  destruct (check_scalar_variable false td DtInt v) as [c|e] eqn:E; [|discriminate].
-  apply wrap_ok in E. pose proof (basic_rejected td v c R E) as NB.
-  assert (ONE : forall s w, (w = Sc s \/ w = Arr [s]) -> regular_sc s = true -> bad_sc DHw s = true ->
-                basic_bad s = false -> csv_core false td DtInt w = Ok c -> ne_orig c w = true).
-  { intros s w Hw Rs Bs Ns Ew. destruct (bad_not_basic s Bs Ns) as [q [-> Hne]].
+  destruct (check_scalar_variable az td DtInt v) as [c|e] eqn:E; [|discriminate].
+  pose proof (basic_rejected az td v c R E) as NB. apply wrap_ok in E.
+  assert (ONE : forall s w, (w = Sc s \/ w = Arr [s]) -> regular_sc s = true -> bad_sc (DHw az) s = true ->
+                basic_bad az s = false -> csv_core az td DtInt w = Ok c -> ne_orig c w = true).
+  { intros s w Hw Rs Bs Ns Ew. destruct (bad_not_basic az s Bs Ns) as [q [-> Hne]].
     unfold csv_core, check_scalar, asarray in Ew.
     destruct Hw as [->| ->]; cbn [cast_list] in Ew; rewrite (cast_frac_regular q Rs) in Ew;
-      destruct td; cbn in Ew; destruct (Qle_bool _ _) in Ew; cbn in Ew; try discriminate;
+      destruct td; cbn -[zero_test] in Ew; destruct (zero_test az (Int (trunc q))) in Ew;
+      cbn in Ew; try discriminate;
       inversion Ew; unfold ne_orig; cbn [orig_elems cs_elems repeat existsb]; rewrite Hne; reflexivity. }
-  assert (ARR : forall l, regular (Arr l) = true -> mr (bad_sc DHw) td (Arr l) = true ->
-                mr basic_bad td (Arr l) = false -> csv_core false td DtInt (Arr l) = Ok c ->
+  assert (ARR : forall l, regular (Arr l) = true -> mr (bad_sc (DHw az)) td (Arr l) = true ->
+                mr (basic_bad az) td (Arr l) = false -> csv_core az td DtInt (Arr l) = Ok c ->
                 ne_orig c (Arr l) = true).
   { intros l Rl Ml Nl El. destruct l as [|a [|b [|x t]]]; cbn in Rl; try discriminate.
     - rewrite andb_true_r in Rl. apply (ONE a (Arr [a])); [now right|assumption..].
@@ -515,15 +542,16 @@ Proof.
         unfold csv_core, check_scalar, asarray in El. cbn [cast_list] in El.
         destruct (cast DtInt a) as [a'|] eqn:Ca; [|discriminate].
         destruct (cast DtInt b) as [b'|] eqn:Cb; [|discriminate].
-        cbn in El. destruct (_ || _) in El; [discriminate|]. inversion El.
+        cbn -[zero_test] in El. destruct (_ || _) in El; [discriminate|]. inversion El.
         unfold ne_orig. cbn [orig_elems cs_elems ne_any].
         apply orb_prop in Ml as [Ba|Bb].
-        * destruct (bad_not_basic a Ba Na) as [q [-> Hne]]. rewrite (cast_frac_regular q Ra) in Ca.
+        * destruct (bad_not_basic az a Ba Na) as [q [-> Hne]]. rewrite (cast_frac_regular q Ra) in Ca.
           inversion Ca. now rewrite Hne.
-        * destruct (bad_not_basic b Bb Nb) as [q [-> Hne]]. rewrite (cast_frac_regular q Rb) in Cb.
+        * destruct (bad_not_basic az b Bb Nb) as [q [-> Hne]]. rewrite (cast_frac_regular q Rb) in Cb.
           inversion Cb. rewrite Hne. apply orb_true_r.
       + exfalso. unfold csv_core, check_scalar, asarray in El. cbn [cast_list] in El.
-        destruct (cast DtInt a); [|discriminate]. destruct (cast DtInt b); [|discriminate]. cbn in El. discriminate.
+        destruct (cast DtInt a); [|discriminate]. destruct (cast DtInt b); [|discriminate].
+        cbn -[zero_test] in El. discriminate.
   }
   destruct v as [s|l|l| |]; cbn [mr] in M; try discriminate.
   - rewrite (ONE s (Sc s)); [discriminate|now left|exact R|exact M|exact NB|exact E].
@@ -573,8 +601,8 @@ Lemma covers1_sound (g : guard) (d : dom) (td : bool) (v : value) :
   covers1 g d td = true -> regular v = true -> must_reject d td v = true -> run_guard g v <> None.
 Proof.
   intros C R M.
-  destruct g as [ls hs|c'|c'|c'|c'|az td' dd|az td'|l|]; destruct d as [| | |c|];
-    try (destruct ls, hs); try (destruct az, td'); try destruct dd; destruct td;
+  destruct g as [ls hs|c'|c'|c'|c'|az td' dd|az td'|l|]; destruct d as [| | |c|az0];
+    try (destruct ls, hs); try (destruct az, td'); try destruct dd; try destruct az0; destruct td;
     cbn in C; try discriminate; try apply Z.leb_le in C;
     first [ (eapply cov_range_open; eassumption)
           | (eapply cov_range_closed; eassumption)
@@ -589,7 +617,7 @@ Lemma covers2_sound (gs : list guard) (d : dom) (td : bool) (v : value) :
   covers2 gs d td = true -> regular v = true -> must_reject d td v = true ->
   exists g, In g gs /\ run_guard g v <> None.
 Proof.
-  intros C R M. destruct d as [| | |c|]; try discriminate. cbn in C.
+  intros C R M. destruct d as [| | |c|az0]; try discriminate. cbn in C.
   apply andb_prop in C as [C C2]. apply andb_prop in C as [T C1]. subst td.
   apply existsb_exists in C1 as [g1 [I1 P1]]. apply existsb_exists in C2 as [g2 [I2 P2]].
   destruct g1 as [| | | | |az td' dd| | |]; try discriminate. destruct td', dd; try discriminate.
@@ -634,7 +662,7 @@ Qed.
 Theorem routing_sound (t : list entry) :
   routing_ok t = true ->
   forall e d, In e t -> expected e = Some d ->
-  forall v, regular v = true -> must_reject d (e_two_d e) v = true ->
+  forall v, regular v = true -> must_reject d (pair_of e) v = true ->
     is_vt (run_chain (before_use (e_chain e)) v) = true.
 Proof.
   intros Hok e d Hin Hexp v R M.
@@ -644,8 +672,8 @@ Proof.
   - intros g _. now apply harmless.
   - apply orb_prop in Hok as [H|H].
     + apply existsb_exists in H as [g [I C]]. exists g. split; [assumption|].
-      now apply (covers1_sound g d (e_two_d e)).
-    + now apply (covers2_sound _ d (e_two_d e)).
+      now apply (covers1_sound g d (pair_of e)).
+    + now apply (covers2_sound _ d (pair_of e)).
 Qed.
 
 (* ---------------------------------------------------------------- validator characterisations (every value) *)
@@ -824,11 +852,11 @@ Proof.
 Qed.
 
 (* half_window, 1-D and 2-D: whatever is accepted is inside the documented domain *)
-Theorem half_window_accepts_only_valid (td : bool) (v : value) :
-  regular v = true -> run_guard (GHalfWindow false td) v = None -> must_reject DHw td v = false.
+Theorem half_window_accepts_only_valid (az td : bool) (v : value) :
+  regular v = true -> run_guard (GHalfWindow az td) v = None -> must_reject (DHw az) td v = false.
 Proof.
-  intros R H. destruct (must_reject DHw td v) eqn:M; [|reflexivity].
-  exfalso. now apply (cov_hw td v R M).
+  intros R H. destruct (must_reject (DHw az) td v) eqn:M; [|reflexivity].
+  exfalso. now apply (cov_hw az td v R M).
 Qed.
 
 (* poly_order (1-D, allow_zero, dtype=int): accepted iff scalar-like, castable, and not negative
@@ -932,4 +960,18 @@ Proof.
   unfold finite_routing_ok. intros H. apply andb_prop in H as [H1 H2].
   rewrite forallb_forall in H1, H2. split; [exact H1|].
   intros td fn n Hr. specialize (H2 _ Hr). cbn in H2. now apply Nat.leb_le.
+Qed.
+
+(* ---------------------------------------------------------------- _check_half_window call sites *)
+Lemma hwsite_eqb_eq (a b : hwsite) : hwsite_eqb a b = true -> a = b.
+Proof.
+  destruct a as [[[[[d1 m1] f1] x1] z1] t1], b as [[[[[d2 m2] f2] x2] z2] t2]. cbn. intros H.
+  repeat (apply andb_prop in H as [H ?]).
+  apply eqb_prop in H, H0, H1. apply String.eqb_eq in H2, H3, H4. now subst.
+Qed.
+Theorem hw_sites_sound (t : list hwsite) : hw_sites_ok t = true -> t = hw_sites_expected.
+Proof.
+  unfold hw_sites_ok. generalize hw_sites_expected. induction t as [|x t IH]; intros [|y e]; cbn; try discriminate.
+  - reflexivity.
+  - intros H. apply andb_prop in H as [H1 H2]. apply hwsite_eqb_eq in H1. rewrite H1, (IH e H2). reflexivity.
 Qed.
